@@ -111,3 +111,336 @@ theorem findOptions_none_of_plain (cs : List Char) (h : ∀ c ∈ cs, (c == '*' 
       simp [findOptions, hb, this]
 
 end T4V.CC
+
+namespace T4V.CC
+set_option linter.unusedSimpArgs false
+
+theorem takeWhile_stop {p : Char → Bool} (a g : List Char) (ha : ∀ x ∈ a, p x = true)
+    (hg : ∀ c rest, g = c :: rest → p c = false) : (a ++ g).takeWhile p = a ∧ (a ++ g).dropWhile p = g := by
+  cases g with
+  | nil => simpa using takeWhile_all_nil a ha
+  | cons c rest => exact takeWhile_all_append a c rest ha (hg c rest rfl)
+
+/-- `(\s*[0-9]+)` on a card that starts with its number followed by a blank -/
+theorem nameGroup_of (ds rest : List Char) (hne : ds ≠ []) (hd : ∀ c ∈ ds, isDigit c = true) :
+    nameGroup (ds ++ ' ' :: rest) = some (ds, ' ' :: rest) := by
+  obtain ⟨x, xs, rfl⟩ := List.exists_cons_of_ne_nil hne
+  have hx : cws x = false := digit_not_ws x (hd x List.mem_cons_self)
+  have h1 : ((x :: xs) ++ ' ' :: rest).takeWhile cws = [] := by simp [List.takeWhile, hx]
+  have h2 : ((x :: xs) ++ ' ' :: rest).dropWhile cws = (x :: xs) ++ ' ' :: rest := by simp [List.dropWhile, hx]
+  have h3 := takeWhile_all_append (p := isDigit) (x :: xs) ' ' rest hd space_not_digit
+  simp only [nameGroup, h1, h2, h3.1, h3.2, List.nil_append]
+  simp
+
+/-- `(\s+\S+)` on a blank followed by a word followed by a blank or the end -/
+theorem wsWord_of (w rest : List Char) (hne : w ≠ []) (hw : ∀ c ∈ w, cws c = false)
+    (hrest : ∀ c r, rest = c :: r → cws c = true) :
+    wsWord (' ' :: w ++ rest) = some (' ' :: w, rest) := by
+  obtain ⟨x, xs, rfl⟩ := List.exists_cons_of_ne_nil hne
+  have hx := hw x List.mem_cons_self
+  have h1 : (' ' :: (x :: xs) ++ rest).takeWhile cws = [' '] := by simp [List.takeWhile, space_ws, hx]
+  have h2 : (' ' :: (x :: xs) ++ rest).dropWhile cws = (x :: xs) ++ rest := by simp [List.dropWhile, space_ws, hx]
+  have h3 := takeWhile_stop (p := fun c => !cws c) (x :: xs) rest (fun c hc => by simp [hw c hc])
+    (fun c r hr => by simp [hrest c r hr])
+  simp only [wsWord, h1, h2, h3.1, h3.2]
+  simp
+
+/-- `(\s+[^\s(]+)` on a blank followed by the density, which ends at a blank, a `(` or the end -/
+theorem wsDensity_of (w rest : List Char) (hne : w ≠ []) (hw : ∀ c ∈ w, cws c = false ∧ c ≠ '(')
+    (hrest : ∀ c r, rest = c :: r → cws c = true ∨ c = '(') :
+    wsDensity (' ' :: w ++ rest) = some (' ' :: w, rest) := by
+  obtain ⟨x, xs, rfl⟩ := List.exists_cons_of_ne_nil hne
+  have hx := (hw x List.mem_cons_self).1
+  have h1 : (' ' :: (x :: xs) ++ rest).takeWhile cws = [' '] := by simp [List.takeWhile, space_ws, hx]
+  have h2 : (' ' :: (x :: xs) ++ rest).dropWhile cws = (x :: xs) ++ rest := by simp [List.dropWhile, space_ws, hx]
+  have h3 := takeWhile_stop (p := fun c => !cws c && c != '(') (x :: xs) rest
+    (fun c hc => by simp [(hw c hc).1, (hw c hc).2])
+    (fun c r hr => by rcases hrest c r hr with h | h <;> simp [h])
+  simp only [wsDensity, h1, h2, h3.1, h3.2]
+  simp
+
+theorem lower_digit (a : Char) (h : isDigit a = true) : lower a = a := by
+  simp only [isDigit, Bool.and_eq_true, decide_eq_true_eq] at h
+  unfold lower
+  have h2 : a.toNat ≤ 57 := h.2
+  have : ¬ ('A' ≤ a) := by
+    intro hA
+    have : 65 ≤ a.toNat := hA
+    omega
+  simp [this]
+
+/-- what `float` accepts starts with a digit, a sign or a point -/
+theorem floatZero_first (m : List Char) (z : Bool) (h : floatZero? m = some z) :
+    ∃ a rest, m = a :: rest ∧ (isDigit a = true ∨ a = '+' ∨ a = '-' ∨ a = '.') := by
+  cases m with
+  | nil => simp [floatZero?, stripSign, fracPart] at h
+  | cons a rest =>
+    refine ⟨a, rest, rfl, ?_⟩
+    by_cases hd : isDigit a = true
+    · exact Or.inl hd
+    by_cases hp : a = '+'
+    · exact Or.inr (Or.inl hp)
+    by_cases hmn : a = '-'
+    · exact Or.inr (Or.inr (Or.inl hmn))
+    by_cases hdot : a = '.'
+    · exact Or.inr (Or.inr (Or.inr hdot))
+    exfalso
+    have hd' : isDigit a = false := by simpa using hd
+    have ht : stripSign (a :: rest) = a :: rest := by
+      unfold stripSign
+      split
+      · rename_i heq; cases heq; exact absurd rfl hp
+      · rename_i heq; cases heq; exact absurd rfl hmn
+      · rfl
+    have hf : fracPart (a :: rest) = ([], a :: rest) := by
+      unfold fracPart
+      split
+      · rename_i heq; cases heq; exact absurd rfl hdot
+      · rfl
+    simp [floatZero?, ht, List.takeWhile, hd', List.dropWhile, hf] at h
+
+/-- a number is not the word `like` -/
+theorem floatZero_not_like (m : List Char) (z : Bool) (h : floatZero? m = some z) : m.map lower ≠ "like".toList := by
+  obtain ⟨a, rest, rfl, ha⟩ := floatZero_first m z h
+  intro hl
+  have h1 : lower a = 'l' := by
+    have := congrArg List.head? hl
+    simpa using this
+  rcases ha with hd | rfl | rfl | rfl
+  · rw [lower_digit a hd] at h1
+    subst h1
+    revert hd; decide
+  · revert h1; decide
+  · revert h1; decide
+  · revert h1; decide
+
+end T4V.CC
+
+namespace T4V.CC
+set_option linter.unusedSimpArgs false
+
+/-- the card in front of its options: number, material, density, and the rest (geometry) -/
+def bodyNonvoid (ds m r g : List Char) : List Char := ds ++ ' ' :: (m ++ ' ' :: (r ++ g))
+/-- the same for a void cell (no density) -/
+def bodyVoid (ds m g : List Char) : List Char := ds ++ ' ' :: (m ++ g)
+
+/-- how the options are attached to the text in front: there are none and the text has no place where options could
+start, or they begin with a letter or `*` right after the final `)` or blank of the text, which has no earlier such
+place -/
+def OptsAt (body o : List Char) : Prop :=
+  (o = [] ∧ findOptions body = none) ∨
+  (∃ p1 p2 c rest, body = p1 ++ [p2] ∧ o = c :: rest ∧ findOptions (p1 ++ [p2]) = none ∧
+    (p2 == ')' || cws p2) = true ∧ (c == '*' || isLetter c) = true)
+
+theorem cutOptions_optsAt (body o : List Char) (h : OptsAt body o) : cutOptions (body ++ o) = (body, o) := by
+  unfold cutOptions
+  rcases h with ⟨rfl, hn⟩ | ⟨p1, p2, c, rest, rfl, rfl, hn, hp2, hc⟩
+  · simp [hn]
+  · have := findOptions_at p1 p2 c rest hn hp2 hc
+    have e : p1 ++ [p2] ++ c :: rest = p1 ++ p2 :: c :: rest := by simp
+    rw [e, this]
+
+theorem dropWhile_ws_word (w rest : List Char) (hne : w ≠ []) (hw : ∀ c ∈ w, cws c = false) :
+    ((' ' :: w ++ rest).dropWhile cws).isEmpty = false := by
+  obtain ⟨x, xs, rfl⟩ := List.exists_cons_of_ne_nil hne
+  have hx := hw x List.mem_cons_self
+  simp [List.dropWhile, space_ws, hx]
+
+/-- **a cell card with a material**: number, material, density, geometry, options are returned as written -/
+theorem split_nonvoid (ds m r g o : List Char)
+    (hds : ds ≠ [] ∧ ∀ c ∈ ds, isDigit c = true)
+    (hm : m ≠ [] ∧ ∀ c ∈ m, cws c = false) (hz : floatZero? m = some false)
+    (hr : r ≠ [] ∧ ∀ c ∈ r, cws c = false ∧ c ≠ '(')
+    (hg : ∀ c rest, g = c :: rest → cws c = true ∨ c = '(')
+    (hopt : OptsAt (bodyNonvoid ds m r g) o) :
+    splitCell (bodyNonvoid ds m r g ++ o)
+      = .ok { name := ds, mat := ' ' :: m ++ ' ' :: r, geom := g, opts := o } := by
+  have hdw : ∀ c ∈ ds, cws c = false := fun c hc => digit_not_ws c (hds.2 c hc)
+  have hrw : ∀ c ∈ r, cws c = false := fun c hc => (hr.2 c hc).1
+  have e0 : bodyNonvoid ds m r g ++ o = ds ++ ' ' :: (m ++ ' ' :: (r ++ (g ++ o))) := by
+    simp [bodyNonvoid]
+  have w1 : word (bodyNonvoid ds m r g ++ o) = (ds, ' ' :: (m ++ ' ' :: (r ++ (g ++ o)))) := by
+    rw [e0]; exact word_of ds _ hdw hds.1
+  have w2 : word (' ' :: (m ++ ' ' :: (r ++ (g ++ o)))) = (m, ' ' :: (r ++ (g ++ o))) := by
+    have := word_of_blank m (r ++ (g ++ o)) hm.2 hm.1
+    simpa using this
+  have w3 : ((' ' :: (r ++ (g ++ o))).dropWhile cws).isEmpty = false := by
+    have := dropWhile_ws_word r (g ++ o) hr.1 hrw
+    simpa using this
+  have hlike := floatZero_not_like m false hz
+  have hfo := cutOptions_optsAt _ o hopt
+  have hlike' : (m.map lower == "like".toList) = false := by simpa using hlike
+  have hng : nameGroup (bodyNonvoid ds m r g) = some (ds, ' ' :: (m ++ ' ' :: (r ++ g))) := by
+    unfold bodyNonvoid; exact nameGroup_of ds _ hds.1 hds.2
+  have hww : wsWord (' ' :: (m ++ ' ' :: (r ++ g))) = some (' ' :: m, ' ' :: (r ++ g)) := by
+    have := wsWord_of m (' ' :: (r ++ g)) hm.1 hm.2 (fun c r' h => by cases h; exact space_ws)
+    simpa using this
+  have hwd : wsDensity (' ' :: (r ++ g)) = some (' ' :: r, g) := by
+    have := wsDensity_of r g hr.1 hr.2 hg
+    simpa using this
+  have hmne : m.isEmpty = false := by
+    cases m with
+    | nil => exact absurd rfl hm.1
+    | cons _ _ => rfl
+  unfold splitCell
+  simp only [w1, w2, w3, hmne, Bool.false_or, Bool.false_eq_true, if_false, hlike', hz, hfo, hng, hww, hwd]
+
+end T4V.CC
+
+namespace T4V.CC
+set_option linter.unusedSimpArgs false
+
+theorem word_of_blank' (w : List Char) (r : List Char) (hw : ∀ c ∈ w, cws c = false) (hne : w ≠ []) :
+    word (' ' :: (w ++ ' ' :: r)) = (w, ' ' :: r) := by
+  simpa using word_of_blank w r hw hne
+
+/-- **a void cell card**: number, `0` (any spelling of zero), geometry, options -/
+theorem split_void (ds m g o : List Char)
+    (hds : ds ≠ [] ∧ ∀ c ∈ ds, isDigit c = true)
+    (hm : m ≠ [] ∧ ∀ c ∈ m, cws c = false) (hz : floatZero? m = some true)
+    (hthird : ((g ++ o).dropWhile cws).isEmpty = false)
+    (hopt : OptsAt (bodyVoid ds m (' ' :: g)) o) :
+    splitCell (bodyVoid ds m (' ' :: g) ++ o) = .ok { name := ds, mat := ' ' :: m, geom := ' ' :: g, opts := o } := by
+  have hdw : ∀ c ∈ ds, cws c = false := fun c hc => digit_not_ws c (hds.2 c hc)
+  have e0 : bodyVoid ds m (' ' :: g) ++ o = ds ++ ' ' :: (m ++ ' ' :: (g ++ o)) := by simp [bodyVoid]
+  have w1 : word (bodyVoid ds m (' ' :: g) ++ o) = (ds, ' ' :: (m ++ ' ' :: (g ++ o))) := by
+    rw [e0]; exact word_of ds _ hdw hds.1
+  have w2 := word_of_blank' m (g ++ o) hm.2 hm.1
+  have w3 : ((' ' :: (g ++ o)).dropWhile cws).isEmpty = false := by
+    simpa [List.dropWhile, space_ws] using hthird
+  have hlike' : (m.map lower == "like".toList) = false := by simpa using floatZero_not_like m true hz
+  have hfo := cutOptions_optsAt _ o hopt
+  have hng : nameGroup (bodyVoid ds m (' ' :: g)) = some (ds, ' ' :: (m ++ ' ' :: g)) := by
+    unfold bodyVoid; exact nameGroup_of ds _ hds.1 hds.2
+  have hww : wsWord (' ' :: (m ++ ' ' :: g)) = some (' ' :: m, ' ' :: g) := by
+    have := wsWord_of m (' ' :: g) hm.1 hm.2 (fun c r' h => by cases h; exact space_ws)
+    simpa using this
+  have hmne : m.isEmpty = false := by
+    cases m with
+    | nil => exact absurd rfl hm.1
+    | cons _ _ => rfl
+  unfold splitCell
+  simp only [w1, w2, w3, hmne, Bool.false_or, Bool.false_eq_true, if_false, hlike', hz, hfo, hng, hww, if_true]
+
+/-! ### `LIKE n BUT` cards -/
+
+/-- `b`, `u`, `t` in any letter case -/
+def isBut (x y z : Char) : Bool := lower x == 'b' && lower y == 'u' && lower z == 't'
+
+theorem lastBut_cons_none (c : Char) (r : List Char) (hr : lastBut r = none)
+    (hc : ∀ y z rest, r = y :: z :: rest → isBut c y z = false) : lastBut (c :: r) = none := by
+  rw [lastBut]
+  simp only [hr]
+  match r, hc with
+  | [], _ => rfl
+  | [_], _ => rfl
+  | y :: z :: rest, hc =>
+    have := hc y z rest rfl
+    simp only [isBut] at this
+    simp [this]
+
+theorem lastBut_cons_some (c : Char) (r a b : List Char) (hr : lastBut r = some (a, b)) :
+    lastBut (c :: r) = some (c :: a, b) := by
+  rw [lastBut]; simp [hr]
+
+/-- the last `but` of a text that ends with `but` followed by a text without one -/
+theorem lastBut_at (mid : List Char) (x y z : Char) (o : List Char) (hb : isBut x y z = true)
+    (ho : lastBut o = none)
+    (ho1 : ∀ a b rest, o = a :: b :: rest → isBut z a b = false)
+    (ho2 : ∀ a rest, o = a :: rest → isBut y z a = false) :
+    lastBut (mid ++ x :: y :: z :: o) = some (mid ++ [x, y, z], o) := by
+  induction mid with
+  | nil =>
+    have hz : lastBut (z :: o) = none := lastBut_cons_none z o ho (fun a b rest h => ho1 a b rest h)
+    have hy : lastBut (y :: z :: o) = none := lastBut_cons_none y (z :: o) hz (fun a b rest h => by
+      cases h; exact ho2 _ _ rfl)
+    rw [List.nil_append, lastBut]
+    simp only [hy]
+    simp only [isBut] at hb
+    simp [hb]
+  | cons c cs ih => exact lastBut_cons_some c _ _ _ ih
+
+end T4V.CC
+
+namespace T4V.CC
+set_option linter.unusedSimpArgs false
+
+theorem lower_of_ws (c : Char) (h : cws c = true) : lower c = c := by
+  have h32 := cws_le c h
+  unfold lower
+  have : ¬ ('A' ≤ c) := by
+    intro hA
+    have : 65 ≤ c.toNat := hA
+    omega
+  simp [this]
+
+/-- a character that lower-cases to a letter of `like` / `but` is not a blank -/
+theorem not_ws_of_lower (c t : Char) (h : lower c = t) (ht : cws t = false) : cws c = false := by
+  cases hc : cws c with
+  | false => rfl
+  | true => rw [lower_of_ws c hc] at h; subst h; rw [hc] at ht; exact absurd ht (by simp)
+
+theorem dropWhile_nonempty (l : List Char) (c : Char) (hc : c ∈ l) (hn : cws c = false) :
+    (l.dropWhile cws).isEmpty = false := by
+  induction l with
+  | nil => simp at hc
+  | cons a as ih =>
+    by_cases ha : cws a = true
+    · rcases List.mem_cons.mp hc with rfl | h
+      · rw [hn] at ha; exact absurd ha (by simp)
+      · simpa [List.dropWhile, ha] using ih h
+    · simp [List.dropWhile, ha]
+
+/-- **a `LIKE n BUT` card**: the number, then everything up to and including the last `but` as the "geometry", then
+the options; `like` and `but` in any letter case -/
+theorem split_like (ds mid o : List Char) (l i k e x y z : Char)
+    (hds : ds ≠ [] ∧ ∀ c ∈ ds, isDigit c = true)
+    (hlk : [l, i, k, e].map lower = "like".toList) (hb : isBut x y z = true)
+    (ho : lastBut o = none)
+    (ho1 : ∀ a b rest, o = a :: b :: rest → isBut z a b = false)
+    (ho2 : ∀ a rest, o = a :: rest → isBut y z a = false) :
+    splitCell (ds ++ ' ' :: l :: i :: k :: e :: ' ' :: (mid ++ x :: y :: z :: o))
+      = .ok { name := ds, mat := [], geom := ' ' :: l :: i :: k :: e :: ' ' :: (mid ++ [x, y, z]), opts := o } := by
+  have hdw : ∀ c ∈ ds, cws c = false := fun c hc => digit_not_ws c (hds.2 c hc)
+  simp only [List.map_cons, List.map_nil] at hlk
+  have hl : lower l = 'l' := by have := congrArg (·[0]?) hlk; simpa using this
+  have hi : lower i = 'i' := by have := congrArg (·[1]?) hlk; simpa using this
+  have hk : lower k = 'k' := by have := congrArg (·[2]?) hlk; simpa using this
+  have he : lower e = 'e' := by have := congrArg (·[3]?) hlk; simpa using this
+  have nl := not_ws_of_lower l 'l' hl (by decide)
+  have ni := not_ws_of_lower i 'i' hi (by decide)
+  have nk := not_ws_of_lower k 'k' hk (by decide)
+  have ne := not_ws_of_lower e 'e' he (by decide)
+  have hxb : lower x = 'b' := by
+    simp only [isBut, Bool.and_eq_true, beq_iff_eq] at hb; exact hb.1.1
+  have nx := not_ws_of_lower x 'b' hxb (by decide)
+  have hw4 : ∀ c ∈ [l, i, k, e], cws c = false := by
+    intro c hc
+    simp only [List.mem_cons, List.mem_nil_iff, or_false] at hc
+    rcases hc with rfl | rfl | rfl | rfl <;> assumption
+  have w1 : word (ds ++ ' ' :: l :: i :: k :: e :: ' ' :: (mid ++ x :: y :: z :: o))
+      = (ds, ' ' :: l :: i :: k :: e :: ' ' :: (mid ++ x :: y :: z :: o)) := word_of ds _ hdw hds.1
+  have w2 : word (' ' :: l :: i :: k :: e :: ' ' :: (mid ++ x :: y :: z :: o))
+      = ([l, i, k, e], ' ' :: (mid ++ x :: y :: z :: o)) := by
+    have := word_of_blank' [l, i, k, e] (mid ++ x :: y :: z :: o) hw4 (by simp)
+    simpa using this
+  have w3 : ((' ' :: (mid ++ x :: y :: z :: o)).dropWhile cws).isEmpty = false :=
+    dropWhile_nonempty _ x (by simp) nx
+  have hlike : ([l, i, k, e].map lower == "like".toList) = true := by
+    simp only [List.map_cons, List.map_nil, hl, hi, hk, he]; decide
+  have hng : nameGroup (ds ++ ' ' :: l :: i :: k :: e :: ' ' :: (mid ++ x :: y :: z :: o))
+      = some (ds, ' ' :: l :: i :: k :: e :: ' ' :: (mid ++ x :: y :: z :: o)) := nameGroup_of ds _ hds.1 hds.2
+  have ht : (' ' :: l :: i :: k :: e :: ' ' :: (mid ++ x :: y :: z :: o)).takeWhile cws = [' '] := by
+    simp [List.takeWhile, space_ws, nl]
+  have hd : (' ' :: l :: i :: k :: e :: ' ' :: (mid ++ x :: y :: z :: o)).dropWhile cws
+      = l :: i :: k :: e :: ' ' :: (mid ++ x :: y :: z :: o) := by
+    simp [List.dropWhile, space_ws, nl]
+  have hlb : lastBut (' ' :: (mid ++ x :: y :: z :: o)) = some (' ' :: (mid ++ [x, y, z]), o) := by
+    have := lastBut_at (' ' :: mid) x y z o hb ho ho1 ho2
+    simpa using this
+  unfold splitCell
+  simp only [w1, w2, w3, List.isEmpty_cons, Bool.false_or, Bool.false_eq_true, if_false, hlike, if_true, hng, ht, hd,
+    hlb]
+  simp
+
+end T4V.CC
